@@ -35,19 +35,19 @@ type Obligation struct {
 
 // Prog is the loaded, type-checked program in SSA form.
 type Prog struct {
-	RepoDir  string
-	GOOS     string
-	Fset     *token.FileSet
-	Pkgs     []*packages.Package
-	SSA      *ssa.Program
-	SSAPkgs  map[string]*ssa.Package // by import path
-	AllFuncs map[*ssa.Function]bool
-	CG       *callgraph.Graph // VTA
+	RepoDir   string
+	GOOS      string
+	Fset      *token.FileSet
+	Pkgs      []*packages.Package
+	SSA       *ssa.Program
+	SSAPkgs   map[string]*ssa.Package // by import path
+	AllFuncs  map[*ssa.Function]bool
+	CG        *callgraph.Graph // VTA
 	flagDepth int
-	CHA      *callgraph.Graph
-	NFiles   map[string]int
-	factMemo map[*ssa.Function]*factSet
-	byName   map[string]*ssa.Function
+	CHA       *callgraph.Graph
+	NFiles    map[string]int
+	factMemo  map[*ssa.Function]*factSet
+	byName    map[string]*ssa.Function
 }
 
 // Ctx collects the obligations of one property run.
